@@ -392,8 +392,21 @@ func genC12(rng *rand.Rand, seed uint64, tier string) *Script {
 	}
 	ops = append(ops, Op{K: "block", Dt: 5}, Op{K: "block", Dt: 5})
 	nb := 4 + rng.IntN(8)
+	dieAt := -1
+	if rng.IntN(3) == 0 {
+		dieAt = rng.IntN(nb) // a contract approves a spender and ceases to exist; its allowance is read afterwards
+	}
 	for b := 0; b < nb; b++ {
+		if b == dieAt {
+			ops = append(ops, Op{K: "eth", W: rng.IntN(g.Wallets), To: "c:callsd", Gas: "i+900000", Price: "b+1", Tip: "1",
+				Data: "{erc20:" + pick(rng, "0", "1") + "}" + hexWord(1) + hex.EncodeToString(Selector("approve(address,uint256)")) + "{w1}" + hexWord(700)})
+			ops = append(ops, Op{K: "block", Dt: 5})
+		}
 		for i, n := 0, 1+rng.IntN(6); i < n; i++ {
+			if dieAt >= 0 && b >= dieAt && rng.IntN(5) == 0 {
+				ops = append(ops, Op{K: "pc", W: rng.IntN(g.Wallets), To: "erc20:" + pick(rng, "0", "1"), Mut: "allowance", A: []string{"c:callsd", "w1"}, Chain: pick(rng, "s", "s", "", "c.s")})
+				continue
+			}
 			switch k := rng.IntN(10); {
 			case k < 6:
 				ops = append(ops, genPcCall(rng, &g, staticChains[rng.IntN(len(staticChains))]))
